@@ -114,6 +114,47 @@ def report_violations_acc(out, items):
             json.dump(rec, open(v["replay"], "w"), indent=1)
 
 
+def c11_above_top(out: Outcome):
+    """C11 stand-in (bounded): on an arbitrary-int base uN no ACCEPTED declaration may address a bit above N-1 (the storage integer
+    has such bits; a field, array element or list entry reaching them creates state that raw_value() cannot carry).  The single-field
+    declarations are those of the C09 enumeration restricted to arbitrary bases and to fields reaching above bit N-1."""
+    work = os.path.join(xrun.WORK, "C11")
+    os.makedirs(work, exist_ok=True)
+    decls = []
+    for p in acc.c09_decls(out.tier, out.seed):
+        s = p.structs[-1]
+        if not s.arbitrary_base:
+            continue
+        try:
+            reach = max(max(lo + n for lo, n in f.ranges) + (f.count - 1) * f.stride for f in s.fields)
+        except Exception:
+            continue
+        if reach > s.base_bits and all(n >= 1 for f in s.fields for _, n in f.ranges):
+            decls.append(p)
+    if not decls:
+        return
+    verdict, _ = acc.classify(work, "acc11", decls, lambda p: p.decl_text())
+    items = []
+    for p in decls:
+        s = p.structs[-1]
+        accepted = verdict[p.pid] is None
+        ob = f"C11/acc/{_norm_decl(s.decl())}"
+        out.add_ob(ob, "reject-above-top", "rustc + real macro (bounded enumeration): a field reaching above bit N-1 of an arbitrary base must be rejected", not accepted)
+        if accepted:
+            items.append({"obligation": ob, "detail": f"accepted although it addresses bits above bit {s.base_bits - 1} of u{s.base_bits} [{p.note}]",
+                          "program_text": p.decl_text(), "verifier_output": {"rustc": {"message": "compiled without error"}},
+                          "inputs": None, "src": None, "extra": {"acc_expect": "reject", "acc_declaration": p.decl_text()}})
+    for it in items[:6]:
+        compiles, diag = acc.replay_compile(it["program_text"])
+        it["extra"]["acc_replay"] = {"compiles": compiles, "diagnostics": diag[-600:]}
+        it["extra"]["reproduced_by_compilation"] = bool(compiles)
+    out.programs += len(decls)
+    out.bounded.append(f"C11 above-top rejection: bounded enumeration of {len(decls)} single-field declarations on arbitrary bases whose field reaches above bit N-1 (vlib/acc.py)")
+    report_violations_acc(out, items[:6])
+    if len(items) > 6:
+        out.extra.setdefault("further_failed_obligations", []).extend(i["obligation"] for i in items[6:])
+
+
 def check_c10(out: Outcome):
     work = os.path.join(xrun.WORK, "C10")
     os.makedirs(work, exist_ok=True)
